@@ -112,3 +112,11 @@ End Files.
 From Coq Require Import NArith.
 Definition identical_N (B : nat) (a b : list N) : bool := identical N N.eqb B a b.
 Definition identical_tail_len_N (B : nat) (a b : list N) : bool := identical_tail_len N N.eqb B a b.
+
+(* instance for the front end (ocaml/drv_c12d.ml): bytes as Z, like Drvlib.bytes_of_hex delivers them *)
+From Coq Require Import ZArith.
+Definition identical_Z (B : nat) (a b : list Z) : bool := identical Z Z.eqb B a b.
+Definition save_type_Z (B : nat) (old : entry Z) (new : list Z) : entry Z := save_type Z Z.eqb B old new.
+Definition copy_skel_Z (B : nat) (old : entry Z) (src : list Z) : entry Z := copy_skel Z Z.eqb B old src.
+Definition link_skel_Z (old : entry Z) (path : nat) : entry Z := link_skel Z old path.
+Definition write_inplace_Z (old : entry Z) (new : list Z) : entry Z * option (list Z) := write_inplace Z old new.
